@@ -306,6 +306,7 @@ type c04UDP struct {
 	index   int
 	dgIndex int // simnet index of the mutated datagram
 	mutTime time.Time
+	seqSeen map[uint32]bool // sequence numbers already transmitted in the mutated direction
 }
 
 // c04ObserveWindow: after a datagram was mutated, genuine retransmissions of the same sequence number
@@ -337,8 +338,16 @@ func (p *c04UDP) plan(d *simnet.Datagram) []simnet.Delivery {
 			p.prev = u
 		}
 	}()
-	// the campaign targets data-bearing datagrams after the handshake (its loss costs seconds)
-	eligible := !p.applied && u.has(m.Class) && (seg.IsData() && seg.PayloadLen > 0) && (m.Kind != "splice" && m.Kind != "replay-prev" || p.prev != nil)
+	if p.seqSeen == nil {
+		p.seqSeen = map[uint32]bool{}
+	}
+	firstTx := !p.seqSeen[seg.Seq]
+	if seg.IsData() {
+		p.seqSeen[seg.Seq] = true
+	}
+	// the campaign targets first transmissions of data-bearing datagrams after the handshake (its
+	// loss costs seconds)
+	eligible := !p.applied && firstTx && u.has(m.Class) && (seg.IsData() && seg.PayloadLen > 0) && (m.Kind != "splice" && m.Kind != "replay-prev" || p.prev != nil)
 	if !eligible {
 		return []simnet.Delivery{{}}
 	}
